@@ -5,18 +5,74 @@ ID = 'C03'
 RULE = ('random state trees with dense initial transitions (to any strict descendant, multi-level jumps, chains up to '
         'the depth of the tree) and states lacking entry/init clauses; EVERY state of every generated chart is used as '
         'start state of a fresh plain HsmEventProcessor and the entry/init ground-truth log and rest state are compared '
-        'with the reference model (no exit may run, no state entered twice). distinct_nontrivial = distinct '
+        'with the reference model (no exit may run, no state entered twice); every fourth case starts the SAME chart object 2-4 times, '
+        'in random states and with events in between, and every one of these start_at calls must do what a first start does. '
+        'distinct_nontrivial = distinct '
         '(depth of start state, number of entries, number of inits) tuples')
 CASES = {'quick': 12000, 'thorough': 300000}
 BUDGET = {'quick': 40, 'thorough': 300}
-REQUIRE = {'starts': 5000, 'deep_init_chains': 20, 'deep_starts': 100}
+REQUIRE = {'starts': 5000, 'deep_init_chains': 20, 'deep_starts': 100, 'restarts_of_a_started_chart': 2000}
 ASSUME = ['generated charts are well-formed (inits target strict descendants)']
+
+
+def restart_case(ctx, rng, spec):
+  """the SAME chart object is started several times (with events in between): every start_at must enter from the outermost
+  state inward and exit nothing, wherever the chart rested before"""
+  from miros.event import Event
+  from miros.hsm import HsmEventProcessor
+  run = cg.Run(spec, spied=False)
+  chart = cg.counted_host(HsmEventProcessor, run)()
+  names = spec['names']
+  history = []
+  wit = {'spec': spec, 'same_chart_object_history': history}
+  gcount = 0
+  for r in range(rng.randint(2, 4)):
+    start = rng.randrange(spec['n'])
+    history.append(('start_at', names[start]))
+    model = cg.Model(spec)
+    model.gcount = gcount      # the guards of the generated handlers count per chart object, across restarts
+    run.reset_logs()
+    try:
+      chart.start_at(run.fns[start])
+    except cg.Budget:
+      ctx.violation('C03/start-does-not-terminate', 'start_at number %d of the same chart object exceeded the step budget' % (r + 1), wit)
+      return
+    except Exception as ex:
+      ctx.violation('C03/restart-raises', 'start_at number %d of the same chart object (%s) raised %s: %s' % (r + 1, names[start], type(ex).__name__, ex), wit)
+      return
+    exp = model.start(start)
+    got = seqrun.split(run.log)[1]
+    ctx.count('starts')
+    if r:
+      ctx.count('restarts_of_a_started_chart')
+    if got != exp:
+      ctx.violation('C03/start-actions-differ', 'start_at(%s), call number %d on the same chart object: actions %r expected %r' % (names[start], r + 1, got, exp), wit)
+      return
+    if chart.state_name != names[model.cur]:
+      ctx.violation('C03/start-rest-state', 'start_at(%s), call number %d on the same chart object, rests in %s expected %s' % (names[start], r + 1, chart.state_name, names[model.cur]), wit)
+      return
+    for sn in cg.gen_script(rng, spec, rng.randint(0, 4)):
+      history.append(('dispatch', sn))
+      run.reset_logs()
+      exp_log = model.dispatch(sn)[0]
+      try:
+        chart.dispatch(Event(signal=sn))
+      except cg.Budget:
+        ctx.count('other_property_disagreements')
+        return
+      if seqrun.split(run.log)[1] != seqrun.split(exp_log)[1] or chart.state_name != names[model.cur]:
+        ctx.count('other_property_disagreements')      # what a dispatch does is C01/C02's business
+        return
+    gcount = model.gcount
 
 
 def run_case(ctx, n):
   rng = ctx.rng('case', n)
   params = seqrun.pick_params(rng, ctx.tier)
   spec = cg.gen_spec(rng, p_init=rng.choice([0.3, 0.6, 0.9]), p_clause=rng.choice([0.6, 0.85, 1.0]), **params)
+  if n % 4 == 3:
+    ctx.distinct(('restart', spec['n'], n % 97))
+    return restart_case(ctx, rng, spec)
   for start in range(spec['n']):
     res = seqrun.run_plain(ctx, rng, spec, start, [])
     m = cg.Model(spec)
